@@ -7,6 +7,7 @@ import (
 	"strings"
 
 	"go.lstv.dev/util/roman"
+	"verif/firstuse"
 	"verif/libdefaults"
 	"verif/mc"
 	"verif/oracle"
@@ -187,6 +188,7 @@ func probe(a arg) (string, string) {
 func main() {
 	mc.Main("C10", "all strings over the roman letters (both cases) up to the stated lengths, plus 1-deviation foreign-byte mutants of valid numerals, against a group-table evaluator that tries every split; "+
 		"non-trivial = the reference evaluator accepts the text", func(r *mc.Run) {
+		firstuse.Phase(r, map[string][]string{"roman": {"parse", "valid"}})
 		r.Reset = reset
 		reset()
 		p := mc.NewProbe(r, "parse", setup, probe)
